@@ -99,6 +99,31 @@ def run(tier="quick", seed=1, replay=None):
         recs, v, out = vf.replay_and_validate(wd, behaviours, "./server/internal/cache/blob", "TestVFBlobReplay",
                                               ["server/internal/cache/blob"], "Trace_BlobCache",
                                               env={"VF_KILL": "" if replay else "1"}, go_timeout=1800)
+        # conformance with the model itself: BlobCache.tla's own actions over every forced writer schedule, one run per blob size
+        by_size = {}
+        for _, tr in vf.split_traces(recs):
+            h = tr[0]
+            if h.get("size", 0) > 0 and any(r["ev"] in ("start", "deliver", "final", "crash") for r in tr):
+                by_size.setdefault(h["size"], []).extend(r for r in tr if r["ev"] != "end")
+        model_drift = {}
+        cov["model_conformance"] = []
+        for size, grecs in sorted(by_size.items()):
+            gpath = os.path.join(wd, f"trace_writers_{size}.ndjson")
+            with open(gpath, "w") as f:
+                for r in grecs:
+                    f.write(json.dumps(r) + "\n")
+            cfgname = f"Trace_BlobModel_{size}.cfg"
+            with open(os.path.join(wd, cfgname), "w") as f:
+                f.write(f'CONSTANTS Size = {size} Writers = {{1, 2, 3}} Kinds = {{"good", "short", "long", "corrupt", "err"}} MaxCrashes = 9 Concurrent = TRUE\n'
+                        "INIT TInit\nNEXT Step\nPOSTCONDITION Accepted\nCHECK_DEADLOCK FALSE\n")
+            mv = vf.validate_trace("Trace_BlobModel", cfgname, gpath, wd, timeout=1800)
+            for _, _, fl in mv["drift"]:
+                for x in fl:
+                    model_drift[x] = model_drift.get(x, 0) + 1
+            cov["model_conformance"].append(dict(size=size, steps=len(grecs), drift_lines=len(mv["drift"])))
+        cov["model_drift"] = model_drift
+        if model_drift:
+            res.note(f"model drift (real cache differs from BlobCache.tla on forced schedules): {model_drift}")
         if not replay and "VF kills=" not in out:
             raise vf.Inconclusive("kill injection did not run")
         traces = vf.split_traces([r for r in recs if r["ev"] != "kill"])
